@@ -199,7 +199,7 @@ def judge_bs(case) -> Outcome:
         if ext == "raise" and oob_given and ("ValueError" in type(e).__name__ or "ValueError" in msg or "extend beyond" in msg):
             out.see("raise_mode_raised")
             return out
-        if isinstance(e, ValueError) or "ValueError" in msg:
+        if (isinstance(e, ValueError) or "ValueError" in msg) and any(p in msg for p in VALIDATION_PHRASES):
             # parameter combinations the transform documents as invalid (df too small, no data within bounds, ...)
             out.decided = False
             out.see("rejected_parameters")
@@ -328,6 +328,12 @@ def cyclic_cardinal(knots, x):
     return out
 
 
+# the messages with which cr/cc/bs reject invalid parameters (anything else that escapes is a defect, not a rejection)
+VALIDATION_PHRASES = ["must be greater than", "Must specify", "should be less than", "lower_bound > upper_bound", "inner knots", "inner knot(s)",
+                      "fall below lower bound", "fall above upper bound", "distinct knots", "cannot specify both", "must be 1-d", "Constraints",
+                      "extend beyond upper and/or lower bounds", "no data points are available", "Invalid value for `df`"]
+
+
 def gen_cubic(rng: random.Random, tier: str) -> dict:
     for _ in range(50):
         n = rng.randint(8, 40)
@@ -394,8 +400,8 @@ def judge_cubic(case) -> Outcome:
         if ext == "raise" and oob_given:
             out.see("raise_mode_raised")
             return out
-        if isinstance(e, ValueError) or "ValueError" in msg:
-            out.decided = False
+        if (isinstance(e, ValueError) or "ValueError" in msg) and any(p in msg for p in VALIDATION_PHRASES):
+            out.decided = False  # a parameter combination the transform documents as invalid
             out.see("rejected_parameters")
             return out
         out.fail("c12.raised", f"{tag}: {type(e).__name__}: {msg[:200]}")
